@@ -21,7 +21,7 @@ CInit ==
   /\ tid \in 1..Len(Traces) /\ l = 2
   /\ sh = [stopping |-> FALSE, shutdown |-> FALSE, intr |-> 0, flag |-> FALSE, thread |-> 0, gen |-> 0,
            tst |-> IF Traces[tid][1].direct = 1 THEN "alive" ELSE "dead"]
-  /\ lp = [pc |-> IF Traces[tid][1].direct = 1 THEN "r1" ELSE "none", k |-> 0, out |-> "did", ndo |-> 0]
+  /\ lp = [pc |-> IF Traces[tid][1].direct = 1 THEN "runE" ELSE "none", k |-> 0, out |-> "did", ndo |-> 0]
   /\ ac = [a \in Actors |-> AIdle]
   /\ ncalls = 0
   /\ g = GInit /\ ga = GAInit(Actors) /\ bad = {}
@@ -32,6 +32,8 @@ Logged ==
     [] Ev.e = "wkE"   -> AWkE(Ev.a)
     [] Ev.e = "wkX"   -> AWkX(Ev.a)
     [] Ev.e = "wtE"   -> AWtE(Ev.a)
+    [] Ev.e = "thS"   -> AThS(Ev.a)
+    [] Ev.e = "run"   -> LRunE
     [] Ev.e = "do"    -> LDo(Ev.out)
     [] Ev.e = "sleep" -> LSleepE(TRUE)
     [] Ev.e = "until" -> LUntil
